@@ -24,12 +24,32 @@ RULE = ('three kinds of case.  ctx = (table, backend, names): K.T / K.T.T == K /
         'and its children / parents / descendants / ancestors must be the covers / strict order of the transposed table '
         '(Lean oracle C06.order).  A big stream repeats ctx / conv / lat / perm on shapes with >= 64 cells and two-digit '
         'indexes (8x8 ... 22x3, 64x1) on every backend with 4 algorithm variants; a history stream renames a used context '
-        'through the setters (and mutates a returned K.T) before the ctx checks.  Exhaustive over all tables up to the scope x 3 backends x 2 '
+        'through the setters (and mutates a returned K.T / ~K / K[..], with or without touching K itself afterwards) before the '
+        'ctx checks.  near (class H6) = every window of a pool of near misses of the \'not \' prefix (other capitalisation, other '
+        'separators, bare / blank-less / doubled / non-initial pattern) as attribute and object names: ctx on every backend, lat on '
+        'the 4 algorithm variants, expected names from the Lean model of the toggle (exact prefix only); the same pool rotates through '
+        'the exhaustive / big / random ctx, lat and perm cases.  dep (classes H5, H4, H7, H8) = a STORE of context objects: '
+        'K = slot 0; steps derive a new object from a slot (K.T, ~K, K[pi, sigma], K[identity], K[pi], K[pi, :], K[:, sigma] with '
+        'unsorted full-range selections), call a public setter of a slot (object_names / attribute_names / data.data; also renamings '
+        'and tables that keep zlib.adler32 of what hash_fixed reads, asserted to differ and to collide), create an unrelated object '
+        'with a colliding hash_fixed, or observe a slot (content, X.T, X.T.T (== X), ~X, ~~X (== X), X[reversed, rotated], the NAMED '
+        'derivation operators of X and of X.T); for every derivation x {source, derived} x 7 kinds of mutation: derive, mutate one '
+        'side, observe BOTH, derive AGAIN and observe, (for T) transpose back and observe; plus random histories over up to 5 objects; '
+        'tables up to 4x4 and 65x2, 2x65, 129x1, 3x64; every observation must equal the Lean model of the store '
+        '(Fca.Model.DualityStore: every object answers for its OWN current content; theorems store_independence, '
+        'derived_object_independent, history_last_write_wins, derive_after_history).  dlat = the lattices derived from K '
+        '(from_context(K), its .T, from_context(K.T), from_context(~K), the monotone lattice) are KEPT, the derived contexts are '
+        'optionally renamed / overwritten, K is changed through its setters (incl. hash-colliding changes), then the kept lattices are '
+        'read again (judged as the lattices of the EARLIER content) and all are built again (judged for the CURRENT content).  lhist '
+        'also keeps an earlier L.T, mutates L or the kept lattice, and judges each against the transposed table.  forms (H7) = the '
+        'four argument forms of K[..] with unsorted full-range selections (strict: the relabelled context), and selections with '
+        'repetitions of length n, n+1, n-1 (model agreement).  h8 = ctx / conv / lat / perm on 64/65 and 128/129 objects or attributes '
+        'with an object (attribute) of index >= 64 that alone distinguishes two concepts.  Exhaustive over all tables up to the scope x 3 backends x 2 '
         'algorithms x all permutations, then seeded random larger tables with random permutations; non-trivial = '
         'table neither all-true nor all-false (perm: and a non-identity permutation); distinct = distinct case '
         'dict without the stream tag')
-EXHAUSTIVE = {'quick': 'all tables n,m<=3 (682) x 3 backends x {ctx with plain, "not "-prefixed and TRICKY names (valid names whose '
-                       'remainder after an optional "not " starts with n/o/t/blank, rotating through the pool), all ordered '
+EXHAUSTIVE = {'quick': 'all tables n,m<=3 (682) x 3 backends x {ctx with plain, "not "-prefixed and TRICKY + NEAR-MISS names (valid names whose '
+                       'remainder after an optional "not " starts with n/o/t/blank, and near misses of the prefix itself, rotating through the pool), all ordered '
                        'selections; lat x 2 algorithms x {"not "-prefixed, TRICKY names}; perm x 2 algorithms x all n!*m! permutations}',
               'thorough': 'the quick scope, plus random tables up to 7x7 with random permutations; 4 repetitions of the '
                           'big shapes and more lattice histories'}
@@ -39,10 +59,14 @@ EXPLANATION = ('K.T, ~K, K[pi,sigma], ConceptLattice.T and the monotone construc
                'Lean oracles allConcepts / lowerCovers / monoConcepts / monoLowerCovers and additionally compared '
                'implementation-vs-implementation (lattice of K.T vs transposed lattice, lattice of K[pi,sigma] vs relabelled lattice)')
 ASSUMPTIONS = ['tables have n,m >= 1 rows/columns; object/attribute names pairwise distinct',
+               'store histories: setter calls are valid (names of the right length, a rectangular table of the same shape); single cells '
+               'written into the array handed out by K.data.data are outside the modelled API (on numpy K.T keeps a view of it)',
                'complement involution: no attribute name starts with "not not " (hypothesis NamesOK of the theorem; '
                'the excluded point is exercised in the malformed stream, where only model/implementation agreement is required)',
                'row/column selections of K[rows, cols] are permutations given as lists of non-negative indexes']
-TRUSTED = ['the lattice-construction algorithms (Lindig, CbO) are not modelled here (property C02): the model of '
+TRUSTED = ['K[rows], K[rows, :], K[:, cols] are judged as K[rows, all columns] / K[all rows, cols] of the model (the slice code paths '
+           'of the backends are modelled in property C05)',
+           'the lattice-construction algorithms (Lindig, CbO) are not modelled here (property C02): the model of '
            'ConceptLattice.T / _from_context_monotone is run on the lattice the implementation built, and that lattice is '
            'itself judged by the brute-force Lean oracle allConcepts + lowerCovers',
            'POSet parents_dict is modelled as _transpose_hierarchy(children_dict) (what POSet.__init__ caches)',
@@ -55,12 +79,16 @@ REQUESTS_NEED_IMPL = True
 ALGOS = (None, 'CbO')
 # algorithm specs: a name understood by from_context, optionally '+ext' / '+int' = Lindig with iterate_extents True / False
 ALGOS_X = (None, 'CbO', 'Lindig+ext', 'Lindig+int')
-OBJ = ['g%d' % i for i in range(72)]
-ATT = list('abcdefghijklmnop') + ['q%d' % i for i in range(16, 72)]
+OBJ = ['g%d' % i for i in range(132)]
+ATT = list('abcdefghijklmnop') + ['q%d' % i for i in range(16, 132)]
 # shapes with >= 64 cells (bit-packing / word boundaries) and two-digit indexes; the first group is small enough in both
 # directions for the brute-force concept oracle (2^width subsets of the table and of its transpose)
 BIG_LAT = ((8, 8), (10, 8), (8, 10), (9, 8), (11, 6), (6, 11))
 BIG_CTX = BIG_LAT + ((13, 5), (5, 13), (16, 4), (4, 16), (22, 3), (3, 22), (64, 1), (1, 64), (33, 2), (2, 33), (9, 7), (7, 9))
+# class H8 (size-gated code paths): 64/65 and 128/129 on either dimension.  The lattices of these shapes have at most
+# 2^min(n,m) concepts; the Lean oracles enumerate over the smaller side (proved exact: C06.big_oracles_sound)
+H8_LAT = ((65, 3), (3, 65), (64, 3), (3, 64), (129, 2), (2, 129), (128, 2), (2, 128))
+H8_CTX = H8_LAT + ((65, 1), (1, 65), (128, 1), (1, 128), (129, 1), (1, 129), (65, 4), (4, 65))
 
 
 def _algo_kw(algo):
@@ -91,9 +119,27 @@ TRICKY = ['tall', 'not tall', 'old', 'not old', 'note', 'not note', ' x', 'not  
           'a', 'not b', 'not', 'nota', 'not on', 'o n']
 
 
+# class H6: near misses of the special-cased prefix 'not ' -- other capitalisation, other separators, the bare pattern,
+# the pattern without its blank, doubled patterns, the pattern not at the start.  All are VALID names (none starts with
+# 'not not '); what ~K / the monotone lattice must do with them comes from the Lean model of the toggle (exact prefix
+# only: theorems toggle_exact_prefix / toggle_near_miss / complement_names_exact_prefix).
+NEAR = ['Not x', 'not_x', 'NOT x', 'not-x', 'nOt x', 'not\tx', 'notx', 'not.x', ' not x', 'not ', '', 'no', 'not not',
+        'Not not x', 'notnot x', 'not Not x', 'not not_x', 'not  not x', 'x', 'not x', 'Not', 'NOT ', 'not_', 'not_not x',
+        'x not ', 'not\nx', 'not\u00a0x', 'Not_x', 'not NOT x', 'not not-x']
+POOL = list(dict.fromkeys(TRICKY + NEAR))
+NEARSET = set(NEAR) - {'x', 'not x', 'not'}
+assert all(not x.startswith('not not ') for x in POOL)
+
+
 def _tricky(k, off):
-    assert k <= len(TRICKY)
-    return [TRICKY[(off + j) % len(TRICKY)] for j in range(k)]
+    assert k <= len(POOL)
+    return [POOL[(off + j) % len(POOL)] for j in range(k)]
+
+
+def _pool_names(k, off, tag):
+    # k pairwise distinct valid names: a window of the pool, continued by generated names for large k
+    head = _tricky(min(k, 6), off)
+    return head + ['%s%d' % (tag, i) for i in range(len(head), k)]
 
 
 def _names(kind, n, m, rng=None, off=0):
@@ -142,6 +188,10 @@ def _history_cases(rng, tier):
                 # permuting the existing names is a renaming too
                 yield dict(stream='history', k='ctx', be=be, rows=rows, objs0=OBJ[:n], attrs0=ATT[:m], pre=pre,
                            objs=OBJ[:n][::-1], attrs=ATT[:m][::-1], so=[list(range(n))], sa=[list(range(m))])
+            # the DERIVED object is renamed / overwritten and K itself is left alone (no setter of K is called)
+            for pre in (['mutT'], ['mutT', 'not'], ['mutnot'], ['mutget'], ['T', 'mutT', 'mutnot', 'mutget']):
+                yield dict(stream='history', k='ctx', be=be, rows=rows, objs0=OBJ[:n], attrs0=ATT[:m], pre=pre, norename=True,
+                           objs=OBJ[:n], attrs=ATT[:m], so=[[], list(range(n))[:1]], sa=[[], list(range(m))[:1]])
 
 
 def _big_cases(rng, tier, boost):
@@ -155,7 +205,7 @@ def _big_cases(rng, tier, boost):
             sels = ([G.random_sel(rng, n) for _ in range(4)] + [[], list(range(n)), [n - 1]],
                     [G.random_sel(rng, m) for _ in range(4)] + [[], list(range(m)), [m - 1]])
             kind = 'tricky' if max(n, m) <= 11 and rng.random() < 0.5 else 'not'
-            objs, attrs = _names(kind, n, m, off=rng.randrange(len(TRICKY)))
+            objs, attrs = _names(kind, n, m, off=rng.randrange(len(POOL)))
             for be in BACKENDS:
                 yield dict(stream='big', k='ctx', be=be, rows=rows, objs=objs, attrs=attrs, so=sels[0], sa=sels[1])
                 yield dict(stream='big', k='conv', be=be, rows=rows, objs=objs, attrs=attrs, so=sels[0], sa=sels[1],
@@ -186,6 +236,7 @@ def _lhist_cases(rng, tier, boost):
         n, m = rng.randint(3, 6), rng.randint(3, 6)
         tables.append(_dense_table(rng, n, m))
     tables.append(_dense_table(rng, 9, 8))
+    tables.append(_gated_table(rng, 65, 3))      # H8: an object with index 64 that distinguishes two concepts
     for ti, rows in enumerate(tables):
         n, m = len(rows), len(rows[0])
         be = BACKENDS[ti % 3]
@@ -195,22 +246,367 @@ def _lhist_cases(rng, tier, boost):
             # one partial query of each kind, at a few positions (the single-query histories are the ones a
             # "hand over what is cached" shortcut gets wrong)
             for q in QUERIES:
-                for pos in (1, 2, rng.randrange(64)):
+                for pos in ((1, 2, rng.randrange(64)) if n <= 12 else (rng.randrange(64),)):
                     yield dict(base, path=path, ops=[[q, pos, rng.randrange(64)]], order=rng.choice(('cp', 'pc')))
             # net-zero and genuine mutations, dictionary reads, hostile mutation of returned dictionaries
+            # H5: L.T is taken and KEPT, then L or the kept lattice is mutated: each answers for its own elements
+            for ops in ([['keepT', 0, 0], ['readd', 1, 0]], [['keepT', 0, 0], ['remove', 1, 0]], [['keepT', 0, 0], ['mutkept', 1, 0]],
+                        [['keepT', 0, 0], ['mutkept', 2, 1], ['T', 0, 0], ['remove', 0, 0]],
+                        [['remove', 2, 0], ['keepT', 0, 0], ['mutkept', 0, 0], ['remove', 1, 0], ['mutate_dicts', 0, 0]]):
+                yield dict(base, path=path, ops=ops, order=rng.choice(('cp', 'pc')))
             for ops in ([['readd', 1, 1]], [['readd', 2, 0]], [['remove', 1, 0]], [['remove', 2, 0], ['parents', 1, 0]],
                         [['children_dict', 0, 0], ['readd', 3, 1]], [['parents_dict', 0, 0]], [['mutate_dicts', 0, 0]],
                         [['T', 0, 0], ['readd', 1, 0]], [['T', 0, 0], ['parents', 2, 0], ['remove', 3, 0]]):
                 yield dict(base, path=path, ops=ops, order=rng.choice(('cp', 'pc')))
             for _ in range(3 if tier == 'quick' and not boost else 10):
-                ops = [[rng.choice(QUERIES + ('readd', 'remove', 'children_dict', 'T', 'mutate_dicts')),
+                ops = [[rng.choice(QUERIES + ('readd', 'remove', 'children_dict', 'T', 'mutate_dicts', 'keepT', 'mutkept')),
                         rng.randrange(64), rng.randrange(64)] for _ in range(rng.randint(2, 5))]
                 yield dict(base, path=path, ops=ops, order=rng.choice(('cp', 'pc')))
+
+
+# ------------------------------------------------------------------------------------------------
+# class H6: directed near-miss names
+# ------------------------------------------------------------------------------------------------
+
+def _near_cases():
+    # every window of three consecutive pool names as the attribute names (and, shifted, as the object names) of two
+    # fixed tables: ~K / ~~K / K.T (ctx) on every backend, the monotone lattice and the transposed lattice (lat)
+    t3 = [[1, 0, 1], [1, 1, 0], [0, 1, 1]]
+    t2 = [[1, 0, 0], [0, 1, 1]]
+    for off in range(len(POOL)):
+        rows = t3 if off % 2 == 0 else t2
+        n, m = len(rows), len(rows[0])
+        attrs = _tricky(m, off)
+        objs = _tricky(n, off + 11)
+        for be in BACKENDS:
+            yield dict(stream='near', k='ctx', be=be, rows=rows, objs=objs, attrs=attrs,
+                       so=[[], [0], list(range(n))], sa=[[], [m - 1], list(range(m))])
+        for ai, algo in enumerate(ALGOS_X):
+            yield dict(stream='near', k='lat', be=BACKENDS[(off + ai) % 3], rows=rows, algo=algo, objs=objs, attrs=attrs)
+
+
+# ------------------------------------------------------------------------------------------------
+# class H5 (+ H4): a store of context objects.  K = slot 0; a step derives a new object from a slot (K.T, ~K,
+# K[rows, cols] in its argument forms), calls a public setter of a slot, creates an unrelated object, or observes
+# a slot (its content, X.T, X.T.T, ~X, ~~X, X[..], the named derivation operators of X and of X.T).  The expected
+# observation is the Lean model's (Fca.Model.DualityStore), i.e. every object answers for its OWN current content.
+# ------------------------------------------------------------------------------------------------
+
+def _adler(objs, attrs, rows):
+    import zlib
+    return zlib.adler32(G.fixed_hash_text(objs, attrs, rows).encode())
+
+
+def _collide_names(names):
+    # a different name list with the same adler32 inside any longer text (H4); None if no name has a partner
+    out, changed = [], False
+    for x in names:
+        y = None if changed else G.adler_collide_name(x)
+        if y is not None and y not in names and not y.startswith('not not '):
+            out.append(y)
+            changed = True
+        else:
+            out.append(x)
+    return out if changed and len(set(out)) == len(out) else None
+
+
+class _Sim:
+    """book-keeping of the generator only (which inputs to choose): shape of every slot and, where it is plain to
+    see, its names and table; the ORACLE is the Lean model, not this"""
+
+    def __init__(self, rows, objs, attrs):
+        self.slots = [dict(rows=[list(r) for r in rows], objs=list(objs), attrs=list(attrs))]
+
+    def shape(self, i):
+        r = self.slots[i]['rows']
+        return len(r), len(r[0])
+
+    def derive(self, src, kind, pi=None, sg=None):
+        X = self.slots[src]
+        r = X['rows']
+        if kind == 'T':
+            D = dict(rows=[list(c) for c in zip(*r)], objs=X['attrs'], attrs=X['objs'])
+        elif kind == 'not':
+            D = dict(rows=[[1 - v for v in row] for row in r], objs=X['objs'], attrs=None)
+        else:
+            D = dict(rows=[[r[i][j] for j in sg] for i in pi],
+                     objs=None if X['objs'] is None else [X['objs'][i] for i in pi],
+                     attrs=None if X['attrs'] is None else [X['attrs'][j] for j in sg])
+        self.slots.append(D)
+        return len(self.slots) - 1
+
+
+def _sels(n, m):
+    return [[], [0], [n - 1], list(range(n))[:2]], [[], [0], [m - 1], list(range(m))[-2:]]
+
+
+def _obs(sim, i):
+    n, m = sim.shape(i)
+    so, sa = _sels(n, m)
+    return dict(o='obs', i=i, so=so, sa=sa)
+
+
+def _derive_step(sim, src, d, variant=0):
+    n, m = sim.shape(src)
+    if d in ('T', 'not'):
+        sim.derive(src, d)
+        return dict(o=d, src=src)
+    # the forms of K[rows, cols]: two lists / rows only / rows and a full slice / a full slice and columns; the
+    # selections are full-range permutations that are not sorted (H7) -- reversed or rotated
+    pi = list(range(n))[::-1] if variant % 2 == 0 else list(range(1, n)) + [0]
+    sg = list(range(1, m)) + [0] if variant % 2 == 0 else list(range(m))[::-1]
+    form = {'get': 'll', 'getid': 'll', 'getr': 'l', 'getr:': 'l:', 'getc': ':l'}[d]
+    if form in ('l', 'l:') or d == 'getid':
+        sg = list(range(m))
+    if form == ':l' or d == 'getid':    # getid: the identity selection -- still a NEW object
+        pi = list(range(n))
+    sim.derive(src, 'get', pi, sg)
+    return dict(o='get', src=src, pi=pi, sigma=sg, form=form)
+
+
+def _mut_steps(sim, i, mut, off, rng):
+    """setter calls on slot i; None when the kind is not available for this slot"""
+    X = sim.slots[i]
+    n, m = sim.shape(i)
+    rows = X['rows']
+    if mut in ('objs', 'attrs', 'both'):
+        st = []
+        if mut in ('objs', 'both'):
+            v = _pool_names(n, off, 'r')
+            X['objs'] = v
+            st.append(dict(o='objs', i=i, v=v))
+        if mut in ('attrs', 'both'):
+            v = _pool_names(m, off + 17, 'z')
+            X['attrs'] = v
+            st.append(dict(o='attrs', i=i, v=v))
+        return st
+    if mut == 'swapnames':      # permuting the names an object already has is a renaming too
+        if X['objs'] is None or X['attrs'] is None or (n < 2 and m < 2):
+            return None
+        X['objs'], X['attrs'] = X['objs'][::-1], X['attrs'][1:] + X['attrs'][:1]
+        return [dict(o='objs', i=i, v=X['objs']), dict(o='attrs', i=i, v=X['attrs'])]
+    if mut == 'data':
+        new = [[1 - v for v in r] for r in rows] if off % 2 else [list(r) for r in rows[::-1]]
+        if new == rows:
+            new = [[1 - v for v in r] for r in rows]
+        X['rows'] = new
+        return [dict(o='data', i=i, rows=new, w=m)]
+    if mut == 'objs~':          # H4: a renaming that keeps zlib.adler32 of everything hash_fixed reads
+        if X['objs'] is None or X['attrs'] is None:
+            return None
+        for which in ('objs', 'attrs'):
+            v = _collide_names(X[which])
+            if v is not None:
+                before = _adler(X['objs'], X['attrs'], rows)
+                old = X[which]
+                X[which] = v
+                assert v != old and _adler(X['objs'], X['attrs'], rows) == before, 'not a colliding renaming'
+                return [dict(o=which, i=i, v=v)]
+        return None
+    if mut == 'data~':          # H4: another table of the same shape with the same hash_fixed
+        if X['objs'] is None or X['attrs'] is None:
+            return None
+        new = G.adler_collide_rows(X['objs'], X['attrs'], rows)
+        if new is None:
+            return None
+        assert new != rows and _adler(X['objs'], X['attrs'], new) == _adler(X['objs'], X['attrs'], rows)
+        X['rows'] = new
+        return [dict(o='data', i=i, rows=new, w=m)]
+    raise ValueError(mut)
+
+
+DERIVES = ('T', 'not', 'get', 'getid', 'getr', 'getr:', 'getc')
+MUTS = ('objs', 'attrs', 'both', 'swapnames', 'data', 'objs~', 'data~')
+# names with an adler32 partner ('obj0' <-> 'ndi0', 'att0' <-> 'bsu0' ...)
+HOBJ = ['obj%d' % i for i in range(132)]
+HATT = ['att%d' % i for i in range(132)]
+
+
+def _gated_table(rng, n, m):
+    # H8: the LAST object (index >= 64 for the big shapes) carries a row no other object has, and it is the only
+    # object having all attributes of that row -- it alone distinguishes two concepts
+    tall = n >= m
+    k, w = (n, m) if tall else (m, n)
+    special = [1] * w
+    special[rng.randrange(w)] = 0 if w > 1 else 1
+    pats = [p for p in itertools.product((0, 1), repeat=w) if list(p) != special and not all(p)] or [tuple([0] * w)]
+    t = [list(rng.choice(pats)) for _ in range(k - 1)] + [special]
+    return t if tall else [list(c) for c in zip(*t)]
+
+
+def _dep_case(rows, be, objs, attrs, steps, tag):
+    return dict(stream='dep', k='dep', be=be, rows=rows, objs=objs, attrs=attrs, steps=steps, tag=tag)
+
+
+def _dep_cases(rng, tier, boost):
+    small = [[[1, 0, 1], [1, 1, 0]], [[1, 0], [0, 1], [1, 1]], [[1, 1, 0], [0, 1, 1], [1, 0, 1]],
+             [[1, 0, 0, 1], [0, 1, 1, 0], [1, 1, 0, 0], [0, 1, 0, 1]], G.random_table(rng, 4, 4, 2, 2)]
+    big = [_gated_table(rng, 65, 2), _gated_table(rng, 2, 65), _gated_table(rng, 129, 1), _gated_table(rng, 3, 64)]
+    k = 0
+    for ti, rows in enumerate(small + big):
+        n, m = len(rows), len(rows[0])
+        isbig = ti >= len(small)
+        for bi, be in enumerate(BACKENDS):
+            for di, d in enumerate(DERIVES):
+                for side in (0, 1):
+                    for mi, mut in enumerate(MUTS):
+                        k += 1
+                        if isbig and (k % 5 != 0 or mut == 'data~'):
+                            continue
+                        sim = _Sim(rows, HOBJ[:n], HATT[:m])
+                        steps = []
+                        if k % 2 == 0:        # the source has been asked for everything before (memos may exist)
+                            steps.append(_obs(sim, 0))
+                        steps.append(_derive_step(sim, 0, d, k))
+                        if k % 3 == 0:
+                            steps += [_obs(sim, 0), _obs(sim, 1)]
+                        ms = _mut_steps(sim, side, mut, k, rng)
+                        if ms is None:
+                            continue
+                        steps += ms
+                        # query BOTH (the one that was not touched first), then ask for the derived object AGAIN
+                        steps += [_obs(sim, 1 - side), _obs(sim, side)]
+                        steps.append(_derive_step(sim, 0, d, k))
+                        steps.append(_obs(sim, 2))
+                        if d == 'T':          # ... and go back from the derived object
+                            steps.append(_derive_step(sim, 1, 'T'))
+                            steps.append(_obs(sim, 3))
+                        yield _dep_case(rows, be, HOBJ[:n], HATT[:m], steps, f'{d}/{"src" if side == 0 else "der"}/{mut}')
+            # H4b: an UNRELATED object whose hash_fixed collides with K's, used next to K
+            twin = G.adler_collide_rows(HOBJ[:n], HATT[:m], rows) if not isbig else None
+            if twin is not None:
+                assert twin != rows and _adler(HOBJ[:n], HATT[:m], twin) == _adler(HOBJ[:n], HATT[:m], rows)
+                sim = _Sim(rows, HOBJ[:n], HATT[:m])
+                sim.slots.append(dict(rows=twin, objs=HOBJ[:n], attrs=HATT[:m]))
+                steps = [_obs(sim, 0), dict(o='fresh', rows=twin, w=m, objs=HOBJ[:n], attrs=HATT[:m]), _obs(sim, 1), _obs(sim, 0)]
+                yield _dep_case(rows, be, HOBJ[:n], HATT[:m], steps, 'twin')
+    # longer random histories over up to five objects
+    for it in range(40 if tier == 'quick' and not boost else 400):
+        rows = G.random_table(rng, 4, 4, 2, 2)
+        n, m = len(rows), len(rows[0])
+        be = BACKENDS[it % 3]
+        sim = _Sim(rows, HOBJ[:n], HATT[:m])
+        steps = []
+        for _ in range(rng.randint(4, 9)):
+            r = rng.random()
+            i = rng.randrange(len(sim.slots))
+            if r < 0.35 and len(sim.slots) < 5:
+                steps.append(_derive_step(sim, i, rng.choice(DERIVES), rng.randrange(4)))
+            elif r < 0.7:
+                ms = _mut_steps(sim, i, rng.choice(MUTS), rng.randrange(len(POOL)), rng)
+                steps += ms or []
+            else:
+                steps.append(_obs(sim, i))
+        steps += [_obs(sim, i) for i in range(len(sim.slots))]
+        yield _dep_case(rows, be, HOBJ[:n], HATT[:m], steps, 'random')
+
+
+# ------------------------------------------------------------------------------------------------
+# class H5 for lattices: the lattices derived from K (from_context(K), its .T, from_context(K.T), from_context(~K),
+# the monotone lattice) are kept, K is changed through its setters (optionally after its derived contexts K.T, ~K,
+# K[..] have been renamed / overwritten), then the KEPT lattices are read again (they must still be the lattices of
+# the earlier content) and all of them are built AGAIN (they must be the lattices of the current content)
+# ------------------------------------------------------------------------------------------------
+
+def _dlat_cases(rng, tier, boost):
+    tables = [[[1, 0, 1], [1, 1, 0]], [[1, 0], [0, 1], [1, 1]], [[1, 1, 0], [0, 1, 1], [1, 0, 1]],
+              [[1, 0, 0, 1], [0, 1, 1, 0], [1, 1, 0, 0], [0, 1, 0, 1]], G.random_table(rng, 5, 4, 3, 3),
+              _gated_table(rng, 65, 3), _gated_table(rng, 3, 65)]
+    k = 0
+    for ti, rows in enumerate(tables):
+        n, m = len(rows), len(rows[0])
+        for be in BACKENDS:
+            for mut in ('objs', 'attrs', 'both', 'swapnames', 'data', 'both+data', 'objs~', 'data~', 'none'):
+                for scribble in (0, 1):
+                    k += 1
+                    if mut == 'none' and not scribble:
+                        continue
+                    if n > 8 or m > 8:
+                        if k % 4 != 0:
+                            continue
+                    sim = _Sim(rows, HOBJ[:n], HATT[:m])
+                    steps = []
+                    for part in mut.split('+'):
+                        if part != 'none':
+                            ms = _mut_steps(sim, 0, part, k, rng)
+                            if ms is None:
+                                steps = None
+                                break
+                            steps += ms
+                    if steps is None:
+                        continue
+                    X = sim.slots[0]
+                    yield dict(stream='dlat', k='dlat', be=be, algo=ALGOS_X[k % 4], rows0=rows, objs0=HOBJ[:n], attrs0=HATT[:m],
+                               muts=steps, scribble=scribble, rows=X['rows'], objs=X['objs'], attrs=X['attrs'], tag=mut)
+
+
+# ------------------------------------------------------------------------------------------------
+# class H7: the argument forms of K[rows, cols] with full-range selections that are not sorted (strict: the result is
+# pinned by the property -- a relabelling), and with repetitions / one more / one fewer index than the dimension
+# (model-vs-implementation; these are not permutations)
+# ------------------------------------------------------------------------------------------------
+
+def _form_cases(rng, tier):
+    tables = [[[1, 0, 1], [1, 1, 0]], [[1, 0], [0, 1], [1, 1]], [[1, 1, 0], [0, 1, 1], [1, 0, 1]], G.random_table(rng, 5, 5, 4, 4),
+              _gated_table(rng, 65, 2), _gated_table(rng, 2, 65), _gated_table(rng, 129, 2), _gated_table(rng, 2, 128)]
+    for rows in tables:
+        n, m = len(rows), len(rows[0])
+        perms_r = [list(range(n))[::-1], list(range(1, n)) + [0]]
+        perms_c = [list(range(m))[::-1], list(range(1, m)) + [0]]
+        p = list(range(n))
+        q = list(range(m))
+        rng.shuffle(p)
+        rng.shuffle(q)
+        perms_r.append(p)
+        perms_c.append(q)
+        objs, attrs = _pool_names(n, n + m, 'g'), _pool_names(m, n + m + 9, 'q')
+        for be in BACKENDS:
+            for pi, sg in zip(perms_r, perms_c):
+                for form in ('ll', 'l', 'l:', ':l'):
+                    yield dict(stream='forms', k='get', be=be, rows=rows, objs=objs, attrs=attrs, form=form, strict=True,
+                               pi=pi if form != ':l' else list(range(n)), sigma=sg if form in ('ll', ':l') else list(range(m)))
+            if n > 8 or m > 8:
+                continue
+            # length == dimension with repetitions, one longer, one shorter (not permutations: model agreement only)
+            reps_r = [[n - 1] * n, ([0, 0] + list(range(1, n)))[:n], list(range(n)) + [0], list(range(n))[1:]]
+            reps_c = [[m - 1] * m, ([0, 0] + list(range(1, m)))[:m], list(range(m)) + [m - 1], list(range(m))[:-1]]
+            for pi, sg in zip(reps_r, reps_c):
+                for form in ('ll', 'l', ':l'):
+                    if (form != ':l' and not pi) or (form != 'l' and not sg):
+                        continue
+                    yield dict(stream='forms', k='get', be=be, rows=rows, objs=OBJ[:n], attrs=ATT[:m], form=form, strict=False,
+                               pi=pi if form != ':l' else list(range(n)), sigma=sg if form in ('ll', ':l') else list(range(m)))
+
+
+def _h8_cases(rng, tier, boost):
+    for (n, m) in H8_CTX:
+        rows = _gated_table(rng, n, m)
+        pi, sg = list(range(n)), list(range(m))
+        rng.shuffle(pi)
+        rng.shuffle(sg)
+        sels = ([G.random_sel(rng, n) for _ in range(3)] + [[], list(range(n)), [n - 1]],
+                [G.random_sel(rng, m) for _ in range(3)] + [[], list(range(m)), [m - 1]])
+        objs, attrs = _pool_names(n, n, 'g'), _pool_names(m, m + 3, 'q')
+        for be in BACKENDS:
+            yield dict(stream='h8', k='ctx', be=be, rows=rows, objs=objs, attrs=attrs, so=sels[0], sa=sels[1])
+            yield dict(stream='h8', k='conv', be=be, rows=rows, objs=objs, attrs=attrs, so=sels[0], sa=sels[1], pi=pi, sigma=sg)
+            if (n, m) in H8_LAT:
+                for algo in ALGOS_X:
+                    yield dict(stream='h8', k='lat', be=be, rows=rows, algo=algo, objs=objs, attrs=attrs)
+                for algo in ALGOS:
+                    yield dict(stream='h8', k='perm', be=be, rows=rows, algo=algo, pi=pi, sigma=sg, objs=objs, attrs=attrs)
 
 
 def gen(tier, seed, boost=False):
     rng = random.Random(seed * 1000003 + 606)
     yield from _history_cases(random.Random(seed * 7919 + 66), tier)
+    # ---- classes H5 / H4 (derived-object independence, hash-preserving edits), H6 (near-miss names), H7 (argument
+    #      forms of K[..]), H8 (64/65, 128/129) -- small directed streams, first because they are cheap ----------
+    yield from _near_cases()
+    yield from _dep_cases(random.Random(seed * 611953 + 65), tier, boost)
+    yield from _dlat_cases(random.Random(seed * 350377 + 65), tier, boost)
+    yield from _form_cases(random.Random(seed * 27644437 + 67), tier)
+    yield from _h8_cases(random.Random(seed * 433494437 + 68), tier, boost)
     # ---- corpus (hand-picked structured tables and minimised past failures) ---------------------------
     cdir = os.path.join(os.path.dirname(os.path.dirname(os.path.dirname(os.path.abspath(__file__)))), 'corpus', 'C06')
     if os.path.isdir(cdir):
@@ -258,9 +654,9 @@ def gen(tier, seed, boost=False):
             rng.shuffle(sg)
             perms.append((pi, sg))
         for be in BACKENDS:
-            yield _ctx_case(rows, be, rng.choice(('plain', 'not', 'tricky', 'tricky')), 'random', sels, off=rng.randrange(len(TRICKY)))
+            yield _ctx_case(rows, be, rng.choice(('plain', 'not', 'tricky', 'tricky')), 'random', sels, off=rng.randrange(len(POOL)))
             for algo in (None, 'CbO', rng.choice(('Lindig+ext', 'Lindig+int'))):
-                tobjs, tattrs = _names(rng.choice(('not', 'tricky', 'tricky')), n, m, off=rng.randrange(len(TRICKY)))
+                tobjs, tattrs = _names(rng.choice(('not', 'tricky', 'tricky')), n, m, off=rng.randrange(len(POOL)))
                 yield dict(stream='random', k='lat', be=be, rows=rows, algo=algo, objs=tobjs, attrs=tattrs)
                 for pi, sg in perms:
                     yield dict(stream='random', k='perm', be=be, rows=rows, algo=algo, pi=pi, sigma=sg,
@@ -393,6 +789,7 @@ def _impl_lhist(c):
     if isinstance(L, dict):
         return {'build': L}
     removed, log = [], []
+    kept = {'L': None, 'removed': []}
     for op, a, b in c['ops']:
         k = len(L)
 
@@ -412,6 +809,24 @@ def _impl_lhist(c):
                 getattr(L, op)
             elif op == 'T':
                 L.T
+            elif op == 'keepT':
+                # the transposed lattice is taken now and kept; what was removed from L so far is missing in it too
+                kept['L'] = L.T
+                kept['removed'] = [[p[1], p[0]] for p in removed]
+            elif op == 'mutkept':
+                LT0 = kept['L']
+                if LT0 is None:
+                    return 'skip'
+                tb = {LT0.top, LT0.bottom}
+                cand = [i for i in range(len(LT0)) if i not in tb]
+                if b % 2:       # scribble into what the kept lattice hands out
+                    LT0.children_dict.clear()
+                    LT0.parents_dict[0] = frozenset({len(LT0) + 3})
+                if not cand:
+                    return 'skip'
+                x = LT0[cand[a % len(cand)]]
+                LT0.remove(x)
+                kept['removed'].append([ints(x.extent_i), ints(x.intent_i)])
             elif op == 'mutate_dicts':
                 d = L.parents_dict
                 d.clear()
@@ -436,6 +851,135 @@ def _impl_lhist(c):
     LT = _try(lambda: L.T)
     out['LT'] = LT if isinstance(LT, dict) else _try(lambda: _jlat_full(LT, c.get('order', 'cp')))
     out['L'] = _try(lambda: _jlat_full(L))
+    if kept['L'] is not None:
+        out['KT'] = _try(lambda: _jlat_full(kept['L'], c.get('order', 'cp')))
+        out['kept_removed'] = kept['removed']
+    return out
+
+
+def _bools(rows):
+    return [[bool(v) for v in r] for r in rows]
+
+
+def _observe(X, so, sa):
+    """everything one asks a context object in an observation (each item guarded on its own)"""
+    n, m = int(X.n_objects), int(X.n_attributes)
+    pi, sg = list(range(n))[::-1], list(range(1, m)) + list(range(m))[:1]
+    on, an = list(X.object_names), list(X.attribute_names)
+    o = {}
+    o['ctx'] = _try(lambda: _jctx(X))
+    o['T'] = _try(lambda: _jctx(X.T))
+    o['TT'] = _try(lambda: _jctx(X.T.T))
+    o['TT_eq'] = _try(lambda: bool(X.T.T == X))
+    o['not'] = _try(lambda: _jctx(~X))
+    o['notnot'] = _try(lambda: _jctx(~~X))
+    o['notnot_eq'] = _try(lambda: bool((~~X) == X))
+    o['get'] = _try(lambda: _jctx(X[pi, sg]))
+    o['int'] = [_try(lambda: [str(x) for x in X.intention([on[i] for i in A])]) for A in so]
+    o['ext'] = [_try(lambda: [str(x) for x in X.extension([an[j] for j in B])]) for B in sa]
+    o['t_ext'] = [_try(lambda: [str(x) for x in X.T.extension([on[i] for i in A])]) for A in so]
+    o['t_int'] = [_try(lambda: [str(x) for x in X.T.intention([an[j] for j in B])]) for B in sa]
+    return o
+
+
+def _getform(X, pi, sg, form):
+    if form == 'l':
+        return X[list(pi)]
+    if form == 'l:':
+        return X[list(pi), :]
+    if form == ':l':
+        return X[:, list(sg)]
+    return X[list(pi), list(sg)]
+
+
+def _impl_dep(c):
+    slots = [_mk(c['rows'], c['be'], c['objs'], c['attrs'])]
+    obs = []
+    for si, st in enumerate(c['steps']):
+        def run():
+            o = st['o']
+            if o == 'T':
+                slots.append(slots[st['src']].T)
+            elif o == 'not':
+                slots.append(~slots[st['src']])
+            elif o == 'get':
+                slots.append(_getform(slots[st['src']], st['pi'], st['sigma'], st.get('form', 'll')))
+            elif o == 'objs':
+                slots[st['i']].object_names = list(st['v'])
+            elif o == 'attrs':
+                slots[st['i']].attribute_names = list(st['v'])
+            elif o == 'data':
+                slots[st['i']].data.data = _bools(st['rows'])
+            elif o == 'fresh':
+                slots.append(_mk(st['rows'], c['be'], st['objs'], st['attrs']))
+            elif o == 'obs':
+                obs.append(_observe(slots[st['i']], st['so'], st['sa']))
+            return None
+        r = _try(run)
+        if isinstance(r, dict):
+            return {'obs': obs, 'failed': dict(r, step=si, o=st['o'])}
+    return {'obs': obs}
+
+
+def _lat_battery(K, algo):
+    out = {'hash': int(K.hash_fixed())}
+    L = _try(lambda: _from_context(K, algo))
+    out['L'] = L if isinstance(L, dict) else _jlat(L)
+    out['LT'] = _try(lambda: _jlat(L.T))
+    out['L2'] = _try(lambda: _jlat(_from_context(K.T, algo)))
+    out['Lneg'] = _try(lambda: _jlat(_from_context(~K, algo)))
+    out['LM'] = _try(lambda: _jlat(_from_context(K, algo, is_monotone=True)))
+    return out
+
+
+def _impl_dlat(c):
+    algo = c['algo']
+    K = _mk(c['rows0'], c['be'], c['objs0'], c['attrs0'])
+    kept = {}
+
+    def early():
+        kept['hash'] = int(K.hash_fixed())
+        kept['L'] = _from_context(K, algo)
+        kept['LT'] = kept['L'].T
+        kept['L2'] = _from_context(K.T, algo)
+        kept['Lneg'] = _from_context(~K, algo)
+        kept['LM'] = _from_context(K, algo, is_monotone=True)
+    r = _try(early)
+    if isinstance(r, dict):
+        return {'early_failed': r}
+
+    def scribble():
+        # hostile but legal: the contexts DERIVED from K are renamed and overwritten through their own setters
+        n, m = len(c['rows0']), len(c['rows0'][0])
+        for D in (K.T, ~K, K[list(range(n))[::-1], list(range(m))]):
+            D.object_names = ['not s%d' % i for i in range(len(D.object_names))]
+            D.attribute_names = ['Not s%d' % i for i in range(len(D.attribute_names))]
+            D.data.data = [[not bool(v) for v in row] for row in D.data.to_list()]
+            D.T
+            ~D
+    if c.get('scribble'):
+        r = _try(scribble)
+        if isinstance(r, dict):
+            return {'early_failed': r}
+
+    def mutate():
+        for st in c['muts']:
+            if st['o'] == 'objs':
+                K.object_names = list(st['v'])
+            elif st['o'] == 'attrs':
+                K.attribute_names = list(st['v'])
+            else:
+                K.data.data = _bools(st['rows'])
+    r = _try(mutate)
+    if isinstance(r, dict):
+        return {'early_failed': r}
+    out = {'final': _lat_battery(K, algo)}
+    # the kept lattices, read only now
+    e = {'hash': kept['hash']}
+    for k_ in ('L', 'LT', 'L2', 'Lneg', 'LM'):
+        e[k_] = _try(lambda: _jlat(kept[k_]))
+    e['LT_again'] = _try(lambda: _jlat(kept['L'].T))
+    out['early'] = e
     return out
 
 
@@ -463,12 +1007,21 @@ def impl(c):
                         KT.attribute_names = ['yy%d' % i for i in range(len(KT.attribute_names))]
                         ~KT
                     _try(mut)
+                elif step in ('mutnot', 'mutget'):
+                    def mut2():
+                        D = ~K if step == 'mutnot' else K[list(range(len(rows)))[::-1], list(range(len(rows[0])))]
+                        D.object_names = ['zz%d' % i for i in range(len(D.object_names))]
+                        D.attribute_names = ['not yy%d' % i for i in range(len(D.attribute_names))]
+                        D.data.data = [[not bool(v) for v in r] for r in D.data.to_list()]
+                        D.T
+                    _try(mut2)
                 elif step == 'not':
                     _try(lambda: ~K)
                 else:
                     _try(lambda: ConceptLattice.from_context(K, algo=None if step == 'default' else step))
-            K.object_names = list(c['objs'])
-            K.attribute_names = list(c['attrs'])
+            if not c.get('norename'):
+                K.object_names = list(c['objs'])
+                K.attribute_names = list(c['attrs'])
         else:
             K = _mk(rows, be, c['objs'], c['attrs'])
         out = {}
@@ -492,19 +1045,15 @@ def impl(c):
         return _impl_conv(c)
     if c['k'] == 'lhist':
         return _impl_lhist(c)
+    if c['k'] == 'dep':
+        return _impl_dep(c)
+    if c['k'] == 'dlat':
+        return _impl_dlat(c)
     if c['k'] == 'lat':
-        K = _mk(rows, be, c['objs'], c['attrs'])
-        out = {'hash': int(K.hash_fixed())}
-        L = _try(lambda: _from_context(K, algo))
-        out['L'] = L if isinstance(L, dict) else _jlat(L)
-        out['LT'] = _try(lambda: _jlat(L.T))
-        out['L2'] = _try(lambda: _jlat(_from_context(K.T, algo)))
-        out['Lneg'] = _try(lambda: _jlat(_from_context(~K, algo)))
-        out['LM'] = _try(lambda: _jlat(_from_context(K, algo, is_monotone=True)))
-        return out
+        return _lat_battery(_mk(rows, be, c['objs'], c['attrs']), algo)
     if c['k'] == 'get':
         K = _mk(rows, be, c['objs'], c['attrs'])
-        return {'P': _try(lambda: _jctx(K[list(c['pi']), list(c['sigma'])]))}
+        return {'P': _try(lambda: _jctx(_getform(K, c['pi'], c['sigma'], c.get('form', 'll'))))}
     # perm
     out = {}
     r = _try(lambda: _lattice_of(tuple(tuple(r) for r in rows), be, tuple(c['objs']), tuple(c['attrs']), algo))
@@ -543,14 +1092,30 @@ def requests(c, io):
         return rs
     if c['k'] == 'lhist':
         rs = []
-        for key_, tr in (('LT', True), ('L', False)):
+        for key_, tr in (('LT', True), ('L', False), ('KT', True)):
             X = io.get(key_)
             if X is None or _bad(X):
                 continue
             rem = [[p[1], p[0]] for p in io['removed']] if tr else io['removed']
+            if key_ == 'KT':
+                rem = io['kept_removed']
             rs.append(dict(op='C06.order', rows=c['rows'], w=w, transposed=tr,
                            L=dict(concepts=X['concepts'], children=X['children']), parents=X['parents'],
                            desc=X['desc'], anc=X['anc'], removed=rem))
+        return rs
+    if c['k'] == 'dep':
+        steps = [{k_: v for k_, v in st.items() if k_ != 'form'} for st in c['steps']]
+        return [dict(op='C06.store', be=SHORT[c['be']], root=dict(rows=c['rows'], w=w, objs=c['objs'], attrs=c['attrs']),
+                     steps=steps)]
+    if c['k'] == 'dlat':
+        rs = []
+        for part, rows_, objs_, attrs_ in (('early', c['rows0'], c['objs0'], c['attrs0']), ('final', c['rows'], c['objs'], c['attrs'])):
+            X = io.get(part)
+            if X is None or any(_bad(X.get(k)) for k in ('L', 'L2', 'Lneg', 'LM')):
+                return []
+            b2 = dict(be=SHORT[c['be']], rows=rows_, w=w, objs=objs_, attrs=attrs_)
+            rs += [dict(op='C06.latT', rows=rows_, w=w, L=X['L'], L2=X['L2']),
+                   dict(b2, op='C06.mono', hash=X['hash'], Lneg=X['Lneg'], LM=X['LM'])]
         return rs
     if c['k'] == 'lat':
         if any(_bad(io.get(k)) for k in ('L', 'L2', 'Lneg', 'LM')):
@@ -745,12 +1310,18 @@ def _judge_perm(c, io, rep):
 
 def _judge_get(c, io, rep):
     res, got = rep[0]['res'], io['P']
+    # strict: the selections are permutations of the full ranges, so the result is pinned by the property (the relabelled
+    # context: theorem getitem_is_permute) whatever the argument form; otherwise only model / implementation agreement
+    kind = 'property' if c.get('strict') else 'correspondence'
+    name = {'ll': 'K[rows, cols]', 'l': 'K[rows]', 'l:': 'K[rows, :]', ':l': 'K[:, cols]'}[c.get('form', 'll')]
     if _bad(got) or 'err' in res:
-        if _bad(got) and 'err' in res and got['err'] == res['err']:
+        if _bad(got) and 'err' in res and got['err'] == res['err'] and not c.get('strict'):
             return dict(ok=True)
-        return _fail('correspondence', 'K[rows, cols]', f'implementation {got} vs model {res}')
+        return _fail(kind, name, f'implementation {got} vs model {res}')
     if not _ctx_same(got, res['ok']):
-        return _fail('correspondence', 'K[rows, cols]', f'implementation {got} vs model {res["ok"]}')
+        return _fail(kind, name, f'implementation {got} vs model {res["ok"]}')
+    if c.get('strict') and (res['ok']['rows'] != rep[0]['spec'] or res['ok']['w'] != rep[0]['spec_w']):
+        return _fail('harness', name, f'model table {res["ok"]["rows"]} != spec {rep[0]["spec"]}')
     return dict(ok=True)
 
 
@@ -793,6 +1364,70 @@ def _judge_conv(c, io, rep):
     return dict(ok=True)
 
 
+def _judge_dep(c, io, rep):
+    if 'failed' in io:
+        return _fail('property', 'store history', f'implementation raised {io["failed"]} in a valid history ({c["tag"]})')
+    want = rep[0]['obs']
+    got = io['obs']
+    if len(want) != len(got):
+        return _fail('harness', 'store history', f'{len(got)} observations, the model answered {len(want)}')
+    obs_steps = [st for st in c['steps'] if st['o'] == 'obs']
+    for k, (g, w_, st) in enumerate(zip(got, want, obs_steps)):
+        where = f'observation {k} (slot {st["i"]}, history {c["tag"]})'
+        if 'err' in w_:
+            return _fail('harness', 'store history', f'the model raised {w_} in a history the generator calls valid')
+        # the object itself
+        if _bad(g['ctx']) or not _ctx_same(g['ctx'], w_['ctx']):
+            return _fail('property', 'content of an object after a history',
+                         f'{where}: the object holds {g["ctx"]}, its own history gives {w_["ctx"]}')
+        # the derived objects, asked for now
+        for key_, name, spec in (('T', 'X.T', 'T_spec'), ('TT', 'X.T.T', None), ('not', '~X', 'not_spec'),
+                                 ('notnot', '~~X', None), ('get', 'X[rows, cols]', 'get_spec')):
+            m_ = w_[key_]
+            if 'ok' not in m_:
+                return _fail('harness', name, f'{where}: the model raised {m_}')
+            if spec is not None and m_['ok']['rows'] != w_[spec]:
+                return _fail('harness', name, f'{where}: model table {m_["ok"]["rows"]} != spec {w_[spec]} (contradicts theorem)')
+            if _bad(g[key_]) or not _ctx_same(g[key_], m_['ok']):
+                return _fail('property', name + ' after a history',
+                             f'{where}: the implementation gives {g[key_]}; for the content the object holds now '
+                             f'({w_["ctx"]}) it is {m_["ok"]}')
+        for key_, name in (('TT_eq', 'X.T.T == X'), ('notnot_eq', '~~X == X')):
+            wv, gv = w_[key_], g[key_]
+            wc = {'err': wv['err']} if isinstance(wv, dict) else wv
+            gc = {'err': gv['err']} if isinstance(gv, dict) else gv
+            if wc != gc:
+                return _fail('property', name + ' after a history', f'{where}: implementation {gv}, model {wv}')
+        # the named derivation operators of X and of X.T
+        for key_, spec, name in (('int', 'spec_int', 'X.intention(names)'), ('ext', 'spec_ext', 'X.extension(names)'),
+                                 ('t_ext', 'spec_int', 'X.T.extension(object names of X)'),
+                                 ('t_int', 'spec_ext', 'X.T.intention(attribute names of X)')):
+            if w_[key_] != w_[spec]:
+                return _fail('harness', name, f'{where}: model {w_[key_]} != spec {w_[spec]} (contradicts theorem)')
+            if g[key_] != w_[key_]:
+                return _fail('property', name + ' after a history', f'{where}: implementation {g[key_]}, prime sets by name {w_[key_]}')
+    return dict(ok=True)
+
+
+def _judge_dlat(c, io, rep):
+    if 'early_failed' in io:
+        return _fail('property', 'lattice history', f'implementation raised {io["early_failed"]} ({c["tag"]})')
+    if len(rep) != 4:
+        bad = {p: {k: v for k, v in io[p].items() if _bad(v)} for p in ('early', 'final')}
+        return _fail('property', 'lattice history', f'implementation raised {str(bad)[:400]} ({c["tag"]})')
+    e = io['early']
+    if _bad(e.get('LT_again')) or e['LT_again'] != e['LT']:
+        return _fail('property', 'kept lattice: L.T again', f'L.T of the kept lattice is now {str(e.get("LT_again"))[:300]}, '
+                                                           f'the L.T kept from before is {str(e["LT"])[:300]}')
+    for part, r2, cc in (('early', rep[0:2], dict(c, k='lat', rows=c['rows0'], objs=c['objs0'], attrs=c['attrs0'])),
+                         ('final', rep[2:4], dict(c, k='lat'))):
+        v = _judge_lat(cc, io[part], r2)
+        if not v.get('ok'):
+            what = ('lattices kept from before the change of K' if part == 'early' else 'lattices built after the change of K')
+            return dict(v, what=f'{what}: {v.get("what")}', detail=f'{what} ({c["tag"]}, scribble={c.get("scribble")}): {v.get("detail")}')
+    return dict(ok=True)
+
+
 def _judge_lhist(c, io, rep):
     if 'build' in io:
         return _fail('property', 'building the lattice (%s)' % c['path'], f'implementation raised {io["build"]}')
@@ -803,8 +1438,18 @@ def _judge_lhist(c, io, rep):
         if _bad(io[key_]):
             return _fail('property', 'L.T after the history' if key_ == 'LT' else 'reading L after the history',
                          f'implementation raised {io[key_]}')
-    rLT, rL = rep
+    rLT, rL = rep[0], rep[1]
     LT, L = io['LT'], io['L']
+    if 'KT' in io:
+        # the transposed lattice taken EARLIER and kept (and possibly mutated itself): still a lattice of the transposed
+        # table -- all its elements concepts, complete up to what had been removed before it was taken / from it
+        if _bad(io['KT']):
+            return _fail('property', 'reading the kept L.T', f'implementation raised {io["KT"]}')
+        for flag, what in (('all_concepts', 'elements'), ('complete', 'completeness'), ('children_ok', 'children'),
+                           ('parents_ok', 'parents'), ('desc_ok', 'descendants'), ('anc_ok', 'ancestors')):
+            if not rep[2][flag]:
+                return _fail('property', 'kept L.T after later mutations: ' + what,
+                             f'rejected by the Lean oracle; kept L.T = {str(io["KT"])[:600]}')
     # the transposed lattice: extents and intents exchanged, element by element
     if [(x['ii'], x['ei'], x['i'], x['e']) for x in L['concepts']] != [(x['ei'], x['ii'], x['e'], x['i']) for x in LT['concepts']]:
         return _fail('property', 'L.T elements', 'the concepts of L.T are not the concepts of L with extent and intent exchanged')
@@ -827,12 +1472,18 @@ def _judge_lhist(c, io, rep):
 def judge(c, io, rep):
     if c['k'] == 'get':
         return _judge_get(c, io, rep)
+    if c['k'] == 'dep':
+        if len(rep) != 1:
+            return _fail('harness', 'dep', 'missing reply')
+        return _judge_dep(c, io, rep)
+    if c['k'] == 'dlat':
+        return _judge_dlat(c, io, rep)
     if c['k'] == 'conv':
         if len(rep) != 4:
             return _fail('harness', 'conv', 'missing replies')
         return _judge_conv(c, io, rep)
     if c['k'] == 'lhist':
-        if len(rep) != 2:
+        if len(rep) != 2 + ('KT' in io):
             bad = {k: v for k, v in io.items() if _bad(v)}
             return _fail('property', 'lattice history', f'implementation raised {str(bad)[:400]} in {c["path"]} {c["ops"]}')
         return _judge_lhist(c, io, rep)
@@ -860,6 +1511,13 @@ def branch(c, io, rep):
     tags = [c['stream'], f"{c['k']}:{c['be']}" + (f":{c.get('algo') or 'default'}" if c['k'] in ('lat', 'perm') else ''), f'size:{n}x{m}']
     if c['k'] == 'get':
         tags.append('get:' + (io['P']['err'] if _bad(io['P']) else 'ok'))
+        tags.append('get-form:%s:%s' % (c.get('form', 'll'), 'perm' if c.get('strict') else 'other'))
+    if c['k'] in ('dep', 'dlat'):
+        tags.append(c['k'] + ':' + c['tag'])
+        if n >= 64 or m >= 64:
+            tags.append(c['k'] + ':>=64')
+    if c['stream'] == 'h8':
+        tags.append('h8:%s:%dx%d' % (c['k'], n, m))
     if c['k'] == 'lhist':
         tags += ['lhist-path:' + c['path']] + ['lhist-op:' + o[0] for o in c['ops']]
         if n * m >= 64:
@@ -870,8 +1528,11 @@ def branch(c, io, rep):
         tags.append('concepts:%d' % min(len(io['L']['concepts']), 33) if len(io['L']['concepts']) < 33 else 'concepts:33+')
     if c['k'] == 'ctx':
         tags.append('names:' + ('bad' if any(a.startswith('not not ') for a in c['attrs']) else
+                                'near-miss' if any(a in NEARSET for a in c['attrs']) else
                                 'tricky' if any(a in TRICKY[:12] or a in TRICKY[14:] for a in c['attrs']) else
                                 'not' if any(a.startswith('not ') for a in c['attrs']) else 'plain'))
+    elif c['k'] in ('lat', 'perm') and any(a in NEARSET for a in c['attrs']):
+        tags.append(c['k'] + '-names:near-miss')
     elif c['k'] in ('lat', 'perm') and any(a in TRICKY[:12] or a in TRICKY[14:] for a in c['attrs']):
         tags.append(c['k'] + '-names:tricky')
     return tags
@@ -882,6 +1543,16 @@ def signature(c, io, rep, v):
 
 
 def shrink(c):
+    if c['k'] == 'dep':
+        # drop single observations / setter calls (slot numbers stay valid: deriving steps are kept)
+        for i, st in enumerate(c['steps']):
+            if st['o'] in ('obs', 'objs', 'attrs', 'data') and len(c['steps']) > 1:
+                yield dict(c, steps=c['steps'][:i] + c['steps'][i + 1:])
+        return
+    if c['k'] == 'dlat':
+        if c.get('scribble'):
+            yield dict(c, scribble=0)
+        return
     rows = c['rows']
     n, m = len(rows), len(rows[0])
 
